@@ -412,6 +412,9 @@ def _collide(thorough):
     add("parstr_tuple1", _child("return x[ 0 ]") + _two("Child( ( 1, ) )", "Child( ( 2, ) )"))
     add("parstr_operator_string", _child("return len( x )") + _two("Child( 'a+b' )", "Child( 'a*b' )"))
     add("parstr_float_exp", _child("return 1") + _two("Child( 1e100 )", "Child( 1 )"))
+    # printed forms that are Python identifiers but not (System)Verilog ones            # controls
+    add("parstr_unicode_letter", _child("return len( x )") + _two("Child( '\u00b5s' )", "Child( 'ms' )"))
+    add("parstr_unicode_digit_mark", _child("return len( x )") + _two("Child( 'x\u0660' )", "Child( 'e\u0301' )"))
     add("parstr_bitstruct_value", _D('''
         @bitstruct
         class Pt:
